@@ -126,6 +126,6 @@ impl ProgProperty for C03 {
     }
     fn floors(&self, tier: Tier) -> Vec<(&'static str, u64)> {
         let q = if tier == Tier::Quick { 1 } else { 20 };
-        vec![("nontrivial", 3000 * q), ("stack-temporaries(temps>=12)", 1000 * q), ("jit-forms", if tier == Tier::Quick { 60 } else { 70 })]
+        vec![("nontrivial", 2000 * q), ("stack-temporaries(temps>=12)", 400 * q), ("jit-forms", if tier == Tier::Quick { 60 } else { 70 })]
     }
 }
